@@ -35,6 +35,9 @@ struct Dec {
   std::vector<hyp_iter_t *> openNbest;
   std::vector<alignment_iter_t *> openAlignIters;
   int extraRefs = 0;
+  std::vector<alignment_t *> retainedAlignments;
+  bool french = false; // reinitialised with the French model: the English grammar / word menus do not apply
+  bool broken = false; // a reinit failed: only another reinit or free is meaningful
 };
 
 const char *JSGFS[] = {
@@ -60,6 +63,143 @@ const int TEXT_OK[] = {1, 1, 2, 2, 0, 1, 1};
 
 Verdict fail(const std::string &key, const std::string &what, const std::string &hist) { return Verdict::fail(key, what + "\nhistory:" + hist); }
 
+
+// ---- configuration objects (the quantifier names config_* calls) ----
+struct KeyInfo {
+  const char *name;
+  char type; // s i f b, or 0 for a key that does not exist
+};
+const KeyInfo KEYS[] = {{"hmm", 's'}, {"dict", 's'}, {"cmn", 's'}, {"samprate", 'i'}, {"frate", 'i'}, {"nfft", 'i'}, {"beam", 'f'}, {"lw", 'f'},
+                        {"compallsen", 'b'}, {"remove_noise", 'b'}, {"loglevel", 's'}, {"nosuchkey", 0}, {"", 0}};
+const int NKEYS = sizeof(KEYS) / sizeof(KEYS[0]);
+
+// a configuration meant for decoder_init / decoder_reinit; *valid says whether initialisation must succeed
+config_t *genInitConfig(Choices &c, std::ostringstream &h, bool *valid, bool *french) {
+  config_t *cfg = config_init(NULL);
+  *valid = true;
+  size_t hm = c.weighted({6, 2, 1, 1});
+  std::string hmm = hm == 0 ? audio::repoDir() + "/model/en-us" : hm == 1 ? audio::repoDir() + "/model/fr-fr" : hm == 2 ? "/nonexistent/model" : audio::repoDir() + "/model";
+  if (hm >= 2) *valid = false;
+  *french = hm == 1;
+  config_set_str(cfg, "hmm", hmm.c_str());
+  size_t dm = c.weighted({7, 1, 1});
+  std::string dict = dm == 0 ? verifDir() + (hm == 1 ? "/data/mini_fr.dic" : "/data/mini.dic") : dm == 1 ? "/nonexistent/words.dic" : verifDir() + "/data";
+  if (dm >= 1) *valid = false;
+  config_set_str(cfg, "dict", dict.c_str());
+  size_t lm = c.weighted({8, 1});
+  config_set_str(cfg, "loglevel", lm == 0 ? "FATAL" : "NOT_A_LEVEL");
+  if (lm) *valid = false;
+  if (c.coin(30)) config_set_bool(cfg, "compallsen", 1);
+  if (c.coin(20)) config_set_float(cfg, "beam", 1e-30);
+  if (c.coin(15)) config_set_str(cfg, "cmn", "batch");
+  h << "{hmm=" << (hm == 0 ? "en-us" : hm == 1 ? "fr-fr" : hm == 2 ? "missing" : "not-a-model") << ",dict=" << (dm == 0 ? "mini" : dm == 1 ? "missing" : "directory") << (lm ? ",loglevel=bogus" : "") << "}";
+  return cfg;
+}
+
+Verdict configOps(Choices &c, Ctx &ctx, std::ostringstream &h, config_t *cfgs[2]) {
+  int ci = (int)c.range(0, 1);
+  if (!cfgs[ci]) {
+    cfgs[ci] = config_init(NULL);
+    h << " cfg" << ci << "=new";
+  }
+  config_t *cfg = cfgs[ci];
+  int n = (int)c.range(1, 6);
+  for (int i = 0; i < n; ++i) {
+    const KeyInfo &k = KEYS[c.range(0, NKEYS - 1)];
+    switch (c.weighted({4, 3, 3, 2, 4, 2, 2, 1, 2})) {
+    case 0: {
+      static const char *V[] = {"", "abc", "16000", "yes", "no", "1e-40", "-7", "3.5", "FATAL", NULL};
+      const char *v = V[c.range(0, 9)];
+      h << " cfg" << ci << ".set_str(" << k.name << "," << (v ? v : "NULL") << ")";
+      ctx.describe(h.str());
+      const anytype_t *r = config_set_str(cfg, k.name, v);
+      if (!k.type && r) return Verdict::fail("unknown-key-accepted", std::string("config_set_str accepted the unknown key '") + k.name + "'\nhistory:" + h.str());
+      if (k.type == 's' && v && *v && !r) return Verdict::fail("valid-setting-refused", std::string("config_set_str refused a non-empty string for string parameter ") + k.name + "\nhistory:" + h.str());
+      break;
+    }
+    case 1: {
+      long v = (long[]){0, 1, -1, 16000, 2147483647L, -2147483648L, 1L << 40}[c.range(0, 6)];
+      h << " cfg" << ci << ".set_int(" << k.name << "," << v << ")";
+      ctx.describe(h.str());
+      const anytype_t *r = config_set_int(cfg, k.name, v);
+      if (!k.type && r) return Verdict::fail("unknown-key-accepted", std::string("config_set_int accepted the unknown key '") + k.name + "'\nhistory:" + h.str());
+      if (k.type && !r) return Verdict::fail("valid-setting-refused", std::string("config_set_int refused a value for ") + k.name + "\nhistory:" + h.str());
+      if (k.type == 'i' && config_int(cfg, k.name) != v) return Verdict::fail("setting-not-stored", std::string("config_int does not return the value just set for ") + k.name + "\nhistory:" + h.str());
+      break;
+    }
+    case 2: {
+      double v = (double[]){0.0, 1.0, -1.5, 1e-40, 1e9, 0.25}[c.range(0, 5)];
+      h << " cfg" << ci << ".set_float(" << k.name << "," << v << ")";
+      ctx.describe(h.str());
+      const anytype_t *r = config_set_float(cfg, k.name, v);
+      if (!k.type && r) return Verdict::fail("unknown-key-accepted", std::string("config_set_float accepted the unknown key '") + k.name + "'\nhistory:" + h.str());
+      if (k.type == 'f' && config_float(cfg, k.name) != v) return Verdict::fail("setting-not-stored", std::string("config_float does not return the value just set for ") + k.name + "\nhistory:" + h.str());
+      break;
+    }
+    case 3: {
+      int v = (int)c.range(0, 1);
+      h << " cfg" << ci << ".set_bool(" << k.name << "," << v << ")";
+      ctx.describe(h.str());
+      const anytype_t *r = config_set_bool(cfg, k.name, v);
+      if (!k.type && r) return Verdict::fail("unknown-key-accepted", std::string("config_set_bool accepted the unknown key '") + k.name + "'\nhistory:" + h.str());
+      if (k.type == 'b' && config_bool(cfg, k.name) != v) return Verdict::fail("setting-not-stored", std::string("config_bool does not return the value just set for ") + k.name + "\nhistory:" + h.str());
+      break;
+    }
+    case 4: {
+      h << " cfg" << ci << ".get(" << k.name << ")";
+      ctx.describe(h.str());
+      (void)config_str(cfg, k.name);
+      (void)config_int(cfg, k.name);
+      (void)config_float(cfg, k.name);
+      (void)config_bool(cfg, k.name);
+      (void)config_typeof(cfg, k.name);
+      (void)config_get(cfg, k.name);
+      break;
+    }
+    case 5: {
+      h << " cfg" << ci << ".unset(" << k.name << ")";
+      ctx.describe(h.str());
+      const anytype_t *r = config_unset(cfg, k.name);
+      if (!k.type && r) return Verdict::fail("unknown-key-accepted", std::string("config_unset accepted the unknown key '") + k.name + "'\nhistory:" + h.str());
+      break;
+    }
+    case 6: {
+      static const char *J[] = {"{\"samprate\": 8000, \"hmm\": \"x\"}", "samprate: 11025\nbeam: 1e-20", "{", "", "{\"nosuchkey\": 1}", "{\"hmm\": null}", "{\"compallsen\": true, \"lw\": 2}", "[1,2]", "{\"hmm\": \"a\\u00e9\\n\"}"};
+      int j = (int)c.range(0, 8);
+      h << " cfg" << ci << ".parse_json(" << j << ")";
+      ctx.describe(h.str());
+      config_t *r = config_parse_json(cfg, J[j]);
+      if (r && r != cfg) return Verdict::fail("parse-json-returned-other-object", "config_parse_json(config, ...) returned a different object\nhistory:" + h.str());
+      break;
+    }
+    case 7: {
+      h << " cfg" << ci << ".retain/free";
+      ctx.describe(h.str());
+      config_retain(cfg);
+      if (config_free(cfg) != 1) return Verdict::fail("refcount", "config_free did not return the remaining reference count\nhistory:" + h.str());
+      break;
+    }
+    default: {
+      h << " cfg" << ci << ".serialize";
+      ctx.describe(h.str());
+      const char *js = config_serialize_json(cfg);
+      if (!js) return Verdict::fail("serialize-failed", "config_serialize_json returned NULL\nhistory:" + h.str());
+      // what it prints must be accepted back by its own reader
+      config_t *back = config_parse_json(NULL, js);
+      if (!back) return Verdict::fail("serialized-config-unreadable", std::string("config_parse_json refuses what config_serialize_json printed: ") + js + "\nhistory:" + h.str());
+      config_free(back);
+      break;
+    }
+    }
+  }
+  if (c.coin(25)) {
+    h << " cfg" << ci << ".free";
+    config_free(cfg);
+    cfgs[ci] = nullptr;
+  }
+  return Verdict::pass();
+}
+
 Verdict propC09(Choices &c, Ctx &ctx) {
   Dec D[2];
   std::ostringstream h;
@@ -81,6 +221,7 @@ Verdict propC09(Choices &c, Ctx &ctx) {
   if (!D[0].d) return Verdict::fail("init-failed", "decoder_init failed");
   Verdict res;
   bool sawUtterance = false, sawQuery = false, cmnTouched = false;
+  config_t *cfgs[2] = {nullptr, nullptr};
   // where the documentation is silent about a call made mid-utterance, the model follows the decoder
   auto resync = [&](Dec &x) {
     if (x.utt == Dec::STARTED && !(x.d->acmod->state == ACMOD_STARTED || x.d->acmod->state == ACMOD_PROCESSING)) x.utt = Dec::IDLE;
@@ -99,17 +240,20 @@ Verdict propC09(Choices &c, Ctx &ctx) {
     Dec &x = D[di];
     decoder_t *d = x.d;
     if (!d) continue;
-    size_t kind = c.weighted({4, 3, 4, 3, 8, 10, 7, 5, 5, 4, 4, 4, 4, 2, 3, 2, 2, 2, 1, 2});
+    size_t kind = c.weighted({4, 3, 4, 3, 8, 10, 7, 5, 5, 4, 4, 4, 4, 2, 3, 2, 2, 2, 1, 2, 3, 2, 2, 2, 1});
     // protocol-following histories steer around calls that are out of order
     if (!violating) {
       if (kind == 4 && (x.utt == Dec::STARTED || !x.hasGrammar)) kind = x.hasGrammar ? 5 : 2;
       if (kind == 5 && x.utt != Dec::STARTED) kind = x.hasGrammar ? 4 : 2;
       if (kind == 6 && x.utt != Dec::STARTED) kind = 7;
-      if ((kind <= 3 || kind == 16) && x.utt == Dec::STARTED) kind = 5; // grammars / words / reinit between utterances
+      if ((kind <= 3 || kind == 16 || kind == 21 || kind == 24) && x.utt == Dec::STARTED) kind = 5; // grammars / words / reinit between utterances
     }
     ctx.describe(h.str());
     // iterators over results do not survive the calls that replace the result
-    if (kind <= 6 || kind == 16) closeIters(x);
+    if (kind <= 6 || kind == 16 || kind == 21 || kind == 24) closeIters(x);
+    if (x.french && (kind <= 3 || kind == 24)) kind = 7; // the grammar / word menus are English
+    // after a failed reinit only another reinit or freeing the decoder means anything
+    if (x.broken && kind != 21 && kind != 19 && kind != 20) kind = c.coin(50) ? 21 : 19;
     switch (kind) {
     case 0: {
       int i = (int)c.range(0, 7);
@@ -433,6 +577,77 @@ Verdict propC09(Choices &c, Ctx &ctx) {
       ctx.describe(h.str());
       (void)decoder_set_logfile(d, NULL);
       break;
+    case 20: {
+      Verdict v = configOps(c, ctx, h, cfgs);
+      if (!v.ok) res = v;
+      break;
+    }
+    case 21: {
+      // reinitialise this decoder from a new configuration object (which the decoder consumes)
+      bool valid, french;
+      h << " reinit" << di << "(";
+      config_t *cfg = genInitConfig(c, h, &valid, &french);
+      h << ")";
+      ctx.describe(h.str());
+      if (x.utt == Dec::STARTED) ctx.label("violation:reinit-mid-utterance");
+      int rc = decoder_reinit(d, cfg); // retained alignments keep their own reference to the dictionary
+
+      if (valid && rc < 0) res = fail("reinit-failed", Msg() << "decoder_reinit with a valid configuration returned " << rc, h.str());
+      if (!valid && rc >= 0) res = fail("invalid-configuration-accepted", Msg() << "decoder_reinit with an unusable configuration returned " << rc, h.str());
+      ctx.label(valid ? "reinit:new-config" : "reinit:unusable-config");
+      x.broken = rc < 0;
+      x.hasGrammar = false;
+      x.utt = Dec::IDLE;
+      x.french = rc >= 0 && french;
+      break;
+    }
+    case 22: {
+      h << " alignment_retain" << di;
+      ctx.describe(h.str());
+      alignment_t *al = x.hasGrammar ? decoder_alignment(d) : NULL;
+      if (al) x.retainedAlignments.push_back(alignment_retain(al));
+      // a retained alignment stays readable while its decoder lives
+      for (auto a : x.retainedAlignments) {
+        alignment_iter_t *it = alignment_words(a);
+        for (; it; it = alignment_iter_next(it)) (void)alignment_iter_name(it);
+      }
+      break;
+    }
+    case 23: {
+      h << " lattice_walk" << di;
+      ctx.describe(h.str());
+      lattice_t *dag = decoder_lattice(d);
+      if (dag) {
+        fsg_search_t *fs = (fsg_search_t *)d->search;
+        int n = 0;
+        for (latlink_t *l = lattice_traverse_edges(dag, NULL, NULL); l && n < 100000; l = lattice_traverse_next(dag, NULL)) ++n;
+        for (latlink_t *l = lattice_reverse_edges(dag, NULL, NULL); l && n < 200000; l = lattice_reverse_next(dag, NULL)) ++n;
+        if (lattice_bestpath(dag, fs->ascale)) {
+          lattice_posterior(dag, fs->ascale);
+          (void)lattice_posterior_prune(dag, (int32)c.range(0, 3) * -2000);
+          // the pruned lattice is still a lattice
+          (void)lat::read(dag);
+          latlink_t *l = lattice_bestpath(dag, fs->ascale);
+          if (l) (void)lattice_hyp(dag, l);
+        }
+      }
+      sawQuery = true;
+      break;
+    }
+    case 24: {
+      static const char *F[] = {"/tests/data/goforward.gram", "/tests/data/nonexistent.gram", "/tests/data/goforward.fsg", "/tests/data"};
+      int i = (int)c.range(0, 3);
+      h << " jsgf_file" << di << "(" << i << ")";
+      ctx.describe(h.str());
+      int rc = decoder_set_jsgf_file(d, (audio::repoDir() + F[i]).c_str());
+      if (i == 0) {
+        if (rc != 0 && x.utt != Dec::STARTED) res = fail("valid-grammar-refused", Msg() << "decoder_set_jsgf_file(goforward.gram) returned " << rc, h.str());
+        if (rc == 0) x.hasGrammar = true;
+      } else if (rc == 0)
+        res = fail("invalid-grammar-accepted", Msg() << "decoder_set_jsgf_file(" << F[i] << ") returned 0", h.str());
+      resync(x);
+      break;
+    }
     default: {
       // free the decoder now (possibly mid-utterance) and continue with a fresh one later
       h << " free" << di;
@@ -441,9 +656,13 @@ Verdict propC09(Choices &c, Ctx &ctx) {
       closeIters(x);
       for (auto l : x.retainedLattices) lattice_free(l);
       x.retainedLattices.clear();
+      for (auto a : x.retainedAlignments) alignment_free(a);
+      x.retainedAlignments.clear();
       decoder_free(d);
       x.d = nullptr;
       x.hasGrammar = false;
+      x.broken = false;
+      x.french = false;
       x.utt = Dec::IDLE;
       break;
     }
@@ -453,7 +672,7 @@ Verdict propC09(Choices &c, Ctx &ctx) {
   // ---- the decoder is still usable: a fixed follow-up utterance ----
   for (int di = 0; di < 2 && res.ok; ++di) {
     Dec &x = D[di];
-    if (!x.d) continue;
+    if (!x.d || x.broken || x.french) continue;
     closeIters(x);
     if (x.utt == Dec::STARTED) {
       if (decoder_end_utt(x.d) < 0) res = fail("end-utt-failed", "closing the open utterance failed", h.str());
@@ -482,8 +701,14 @@ Verdict propC09(Choices &c, Ctx &ctx) {
     closeIters(x);
     for (auto l : x.retainedLattices) lattice_free(l);
     x.retainedLattices.clear();
+    for (auto a : x.retainedAlignments) alignment_free(a);
+    x.retainedAlignments.clear();
     if (x.d) decoder_free(x.d);
     x.d = nullptr;
+  }
+  for (auto &cf : cfgs) {
+    if (cf) config_free(cf);
+    cf = nullptr;
   }
   if (res.ok) __lsan_do_leak_check(); // ends the child with a report if something leaked
   ctx.labelIf(violating, "generator:protocol-violating");
